@@ -3,6 +3,7 @@ import FFS.Driver.Secp
 import FFS.Driver.Tx
 import FFS.Driver.Eth
 import FFS.Driver.Abi
+import FFS.Driver.AbiCodec
 open Lean FFS FFS.Driver
 
 def dispatch (op : String) (j : Json) : Json :=
@@ -24,6 +25,9 @@ def dispatch (op : String) (j : Json) : Json :=
   | "eth.addr" => opEthAddr j
   | "eth.hexbytes" => opEthHexBytes j
   | "abi.validate" => opAbiValidate j
+  | "abi.encode" => opAbiEncode j
+  | "abi.roundtrip" => opAbiRoundtrip j
+  | "abi.decode" => opAbiDecode j
   | _ => Json.mkObj [("bad", "op")]
 
 partial def loop (hin : IO.FS.Stream) (hout : IO.FS.Stream) : IO Unit := do
